@@ -7,6 +7,7 @@ params:
             sleep_time() with the exactly computed min(sleep * exponent ** (attempt - 1), max_sleep))
             {"kind": "custom", "decisions": [[retry?(0/1/"raise"), sleep ticks | "raise"], ...]} last repeats
   jobs      [{script: ["V"|"E"|"F", ...], S, K, K2 (cancel times or None), C (delegate cancellable),
+              probe: [time, n, gap] a client thread probe<j> asks running() / done() / cancelled() n times,
               percall: optional per-call policy dict, cancel_in_policy: attempt k at which sleep_time cancels}]
   dur       ticks per attempt;  horizon
 """
@@ -107,6 +108,23 @@ def build(p):
             E.vsleep(max(when - E.now(), 0))
             H.do_cancel(fut, j)
 
+        def prober(j, fut, when, n, gap):
+            # a client asks running() / done() / cancelled(): the queries never raise
+            E.vsleep(max(when - E.now(), 0))
+            for _ in range(n):
+                for name in ("running", "done", "cancelled"):
+                    E.upoint()
+                    try:
+                        r = getattr(fut, name)()
+                    except E.SchedAbort:
+                        raise
+                    except BaseException as ex:
+                        E.emit("ProbeRaise", f=j, s=name, x=type(ex).__name__)
+                        continue
+                    E.emit("ProbeRet", f=j, s=name, a=1 if r else 0)
+                if gap:
+                    E.vsleep(gap)
+
         def sub(j):
             jb = jobs[j - 1]
             E.vsleep(jb.get("S", 0))
@@ -138,6 +156,8 @@ def build(p):
                 E.spawn("can%d" % j, canceller, j, fut, jb["K"])
             if jb.get("K2") is not None:
                 E.spawn("cab%d" % j, canceller, j, fut, jb["K2"])
+            if jb.get("probe"):
+                E.spawn("probe%d" % j, prober, j, fut, *jb["probe"])
 
         for j in range(len(jobs)):
             E.spawn("sub%d" % (j + 1), sub, j + 1)
